@@ -22,8 +22,10 @@
 package main
 
 import (
+	"bufio"
 	"bytes"
 	"crypto/sha256"
+	"encoding/base64"
 	"encoding/hex"
 	"encoding/json"
 	"fmt"
@@ -205,6 +207,71 @@ type driver struct {
 	sent    []string // sentinel strings planted in the fixture
 	etags   map[string]string
 	whips   map[string]string // name -> resource URL path
+	roots   bool              // add the digests of every directory of the scratch tree to http events
+}
+
+// digests of the directories the server is configured with, and of what lies next to them
+func (d *driver) rootDigests() map[string]any {
+	r := d.srv.root
+	top := []string{}
+	if es, err := os.ReadDir(r); err == nil {
+		for _, e := range es {
+			top = append(top, e.Name())
+		}
+	}
+	return map[string]any{"outside": digest(filepath.Join(r, "outside")), "static": digest(filepath.Join(r, "static")), "data": digest(filepath.Join(r, "data")),
+		"recordings": digest(filepath.Join(r, "recordings")), "groups": digest(filepath.Join(r, "groups")), "top": strings.Join(top, ",")}
+}
+
+// a request written byte for byte (no client-side path cleaning or escaping)
+func (d *driver) rawhttp(name, method, target string, headers map[string]any, body string, user, pass string) {
+	ev := map[string]any{"ev": "http", "name": name, "method": method, "path": target, "status": -1, "etag": "", "body": "", "leaks": []string{}, "ctype": "", "allow": "", "members": [][]string{}, "raw": 1}
+	defer func() {
+		ev["digest"], ev["parts"] = d.stateDigest(), d.parts()
+		if d.roots {
+			ev["roots"] = d.rootDigests()
+		}
+		d.emit(ev)
+	}()
+	c, err := net.DialTimeout("tcp", fmt.Sprint("127.0.0.1:", d.srv.port), 2*time.Second)
+	if err != nil {
+		ev["body"] = err.Error()
+		return
+	}
+	defer c.Close()
+	c.SetDeadline(time.Now().Add(5 * time.Second))
+	var b bytes.Buffer
+	fmt.Fprintf(&b, "%s %s HTTP/1.1\r\nHost: 127.0.0.1:%d\r\nConnection: close\r\n", method, target, d.srv.port)
+	for k, v := range headers {
+		fmt.Fprintf(&b, "%s: %s\r\n", k, str(v))
+	}
+	if user != "" || pass != "" {
+		fmt.Fprintf(&b, "Authorization: Basic %s\r\n", base64.StdEncoding.EncodeToString([]byte(user+":"+pass)))
+	}
+	fmt.Fprintf(&b, "Content-Length: %d\r\n\r\n%s", len(body), body)
+	c.Write(b.Bytes())
+	resp, err := http.ReadResponse(bufio.NewReader(c), nil)
+	if err != nil {
+		ev["body"] = err.Error()
+		return
+	}
+	defer resp.Body.Close()
+	rb, _ := io.ReadAll(io.LimitReader(resp.Body, 1<<20))
+	all := string(rb)
+	for k, vs := range resp.Header {
+		all += "\n" + k + ": " + strings.Join(vs, ",")
+	}
+	leaks := []string{}
+	for _, s := range d.sent {
+		if strings.Contains(all, s) {
+			leaks = append(leaks, s)
+		}
+	}
+	bs := string(rb)
+	if len(bs) > 300 {
+		bs = bs[:300]
+	}
+	ev["status"], ev["body"], ev["leaks"], ev["location"], ev["ctype"] = resp.StatusCode, bs, leaks, resp.Header.Get("Location"), resp.Header.Get("Content-Type")
 }
 
 func (d *driver) emit(ev map[string]any) {
@@ -621,6 +688,9 @@ func (d *driver) gotOffer(c *client, m map[string]any) {
 func (d *driver) http(name, method, path string, headers map[string]any, body string, user, pass string) {
 	ev := d.doHTTP(name, method, path, headers, body, user, pass, true)
 	ev["digest"], ev["parts"] = d.stateDigest(), d.parts()
+	if d.roots {
+		ev["roots"] = d.rootDigests()
+	}
 	d.emit(ev)
 }
 
@@ -899,7 +969,7 @@ func (d *driver) files() {
 	r := d.srv.root
 	d.emit(map[string]any{"ev": "files", "digest": d.stateDigest(), "parts": d.parts(), "groups": digest(filepath.Join(r, "groups")), "data": digest(filepath.Join(r, "data")),
 		"outside": digest(filepath.Join(r, "outside")), "recordings": listing(filepath.Join(r, "recordings")),
-		"grouplist": listing(filepath.Join(r, "groups")), "rootlist": listing(r)})
+		"grouplist": listing(filepath.Join(r, "groups")), "rootlist": listing(r), "roots": d.rootDigests()})
 }
 
 // fixture: {"files": {"groups/g.json": "...", ...}, "sentinels": ["..."]}
@@ -931,6 +1001,7 @@ type beh struct {
 	Fixture map[string]any `json:"fixture"`
 	Steps   [][]any        `json:"steps"`
 	Crash   string         `json:"crash"`
+	Roots   bool           `json:"roots"`
 }
 
 func num(x any) int {
@@ -944,6 +1015,7 @@ func (d *driver) runBeh(b beh, idx int) {
 	d.srv.stop()
 	d.fixture(b.Fixture)
 	d.srv.crash = b.Crash
+	d.roots = b.Roots
 	if err := d.srv.start(); err != nil {
 		d.emit(map[string]any{"ev": "New", "name": b.Name, "idx": idx})
 		d.emit(map[string]any{"ev": "startfail", "err": err.Error()})
@@ -995,6 +1067,9 @@ func (d *driver) runBeh(b beh, idx int) {
 			}
 		case "settle":
 			d.settle()
+		case "rawhttp":
+			h, _ := st[4].(map[string]any)
+			d.rawhttp(str(st[1]), str(st[2]), str(st[3]), h, str(st[5]), str(st[6]), str(st[7]))
 		case "httprace":
 			rs, _ := st[2].([]any)
 			d.httprace(str(st[1]), rs)
